@@ -637,6 +637,52 @@ def main(P):
 """)], ['fixed-rereg'])
 
 
+FIXED_COTASKS = fixed([('main.py', """# two decorated coroutines alive at once on one thread; the one started first finishes first
+class Susp:
+    def __await__(self):
+        r = yield 7
+        return r
+async def first(x, d):
+    x = x + 1
+    await Susp()
+    A(5)
+    return x
+async def second(x, d):
+    x = x + 2
+    await Susp()
+    A(3)
+    x = x * 2
+    await Susp()
+    A(7)
+    x = x - 1
+    return x
+def main(P):
+    P.deco('first')
+    P.deco('second')
+    c1 = P.fn('first')(1, 0)
+    c2 = P.fn('second')(2, 0)
+    live = [c1, c2]
+    for r in range(4):
+        for c in list(live):
+            try:
+                c.send(None)
+            except StopIteration:
+                live.remove(c)
+    P.snap()
+    # and the other way round: the one started second finishes first
+    c2 = P.fn('second')(3, 0)
+    c1 = P.fn('first')(4, 0)
+    live = [c2, c1]
+    for r in range(4):
+        for c in list(live):
+            try:
+                c.send(None)
+            except StopIteration:
+                live.remove(c)
+    P.snap()
+""")], ['fixed-cotasks'])
+
+
 def merge_results(res, res2, label):
     res.mismatches += res2.mismatches
     res.spec_fails += res2.spec_fails
